@@ -89,6 +89,14 @@ def evaluate(case):
         cmp('area', lambda: A.area, lambda: P.area)
     box = tuple(case['box'])
     cmp('intersects_bounds', lambda: A.intersects_bounds(box), lambda: P.intersects_bounds(box), lambda v, e: not bool(v))
+    if len(padded):
+        # the `inds` form naming every row, inert ones included (internal callers never hand inert rows to it, users can)
+        allrows = np.arange(len(padded) - 1, -1, -1).astype(np.uint32)
+        r = np.asarray(lib(B + ['intersects_bounds-inds'], P.intersects_bounds, box, allrows))
+        if any(r[len(padded) - 1 - i] for i in inert_pos):
+            fails.append((B + ['intersects_bounds-inds', 'inert-row-value'], f'padded={padded} box={box} inds=reversed range -> {r.tolist()}'))
+        if [bool(r[len(padded) - 1 - k]) for k in keep] != [bool(v) for v in A.intersects_bounds(box)]:
+            fails.append((B + ['intersects_bounds-inds', 'changed-by-inert-rows'], f'padded={padded} box={box}'))
     tb = [float(v) for v in case['hd_bounds']]
     if len(els):
         cmp('hilbert_distance', lambda: A.hilbert_distance(list(tb), case['p']), lambda: P.hilbert_distance(list(tb), case['p']))
@@ -273,7 +281,13 @@ def _case(draw):
         if draw(st.integers(0, 9)) == 0:
             e = None
         els.append(e)
-    inert_types = [None, None, [float('nan'), float('nan')] if kind == 'point' else []]
+    nan = float('nan')
+    inert_types = [None, None, [nan, nan] if kind == 'point' else []]
+    if subtype.startswith('float') and kind != 'point':
+        # "without any finite coordinate": elements whose coordinates are all NaN are inert as well
+        inert_types.append({'multipoint': [nan, nan], 'line': [nan, nan, nan, nan], 'ring': [nan, nan, nan, nan],
+                            'multiline': [[nan, nan, nan, nan]], 'polygon': [[nan, nan, nan, nan, nan, nan]],
+                            'multipolygon': [[[nan, nan, nan, nan, nan, nan]]]}[kind])
     mode = draw(st.sampled_from(['few', 'few', 'run', 'ends', 'many']))
     ps = draw(st.sampled_from([1, 2, 3, 4, 8, 512]))
     if mode == 'few':
